@@ -244,7 +244,7 @@ func init() {
 	{
 		p := &Prop{ID: "C10", Outside: []string{
 			"real goroutine interleavings of LintFiles, GOMAXPROCS, the Go race detector: the scheduler is not SSA; what is decided is that no store instruction reachable from linting one file writes memory shared between files (package-level tables, the shared Config), which rules out races on those objects for every schedule",
-			"per-file equality of diagnostics between multi-file and single-file runs, local action / reusable workflow caches (file system, reflection-driven decoding)",
+			"per-file equality of multi-file and single-file runs beyond the two-repository / three-file family of the multi-file harness (file system, findProject and configuration loading are virtual there); local action / reusable workflow caches (file system, reflection-driven decoding)",
 			"paths outside the alphabet {/, a, b, .} or longer than the bound; non-clean or relative paths (filepath.Abs is modelled as the identity on absolute clean paths)",
 		}}
 		p.Quick = []HRun{
@@ -254,6 +254,7 @@ func init() {
 			{Entry: "HarnessC10Types", Args: []int64{1}, Bound: "on.<hook>.types: [T] for each of 32 webhook events, T 1 arbitrary byte", Require: []string{"reported"}},
 			{Entry: "HarnessC10Types", Args: []int64{3}, Bound: "... T 3 arbitrary bytes", Require: []string{"reported"}},
 		}
+		p.Quick = append(p.Quick, HRun{Entry: "HarnessC10MultiFile", Bound: "two repositories with their own configuration, three files (runner label two symbolic lower-case letters), LintFiles in 6 argument orders vs each file linted alone; configurations write-monitored", Require: []string{"linted"}})
 		for _, lens := range [][2]int64{{1, 1}, {1, 3}, {2, 2}, {2, 4}, {2, 5}, {3, 2}, {3, 3}, {3, 5}, {3, 6}, {4, 6}} {
 			p.Quick = append(p.Quick, HRun{Entry: "HarnessC10Knows", Args: []int64{lens[0], lens[1]}, Bound: "all roots / paths of these lengths over {/,a,b,.}"})
 		}
@@ -329,11 +330,12 @@ func init() {
 	{
 		p := &Prop{ID: "C02", Outside: []string{
 			"goroutine scheduling, GOMAXPROCS, repeated process executions: the scheduler is not SSA (C20 covers the result-collection protocol; C10 the absence of shared writes)",
-			"workflows other than the seven of the corpus (each has several diagnostics per position / several candidates); maps with more than 3 entries are iterated in 3 transformed orders (reversed, rotated by 1, rotated by n/2) instead of all n!",
+			"workflows other than the nine of the corpus (each has several diagnostics per position / several candidates); maps with more than 3 entries are iterated in 3 transformed orders (reversed, rotated by 1, rotated by n/2) instead of all n!",
 			"native confirmation of an order dependence uses Go's own randomised iteration (60 repetitions)",
 		}}
 		p.Quick = []HRun{
-			{Entry: "HarnessC02MapOrder", Bound: "7 workflows x every function that ranges over a map of >= 2 entries (discovered by a recording run) x every iteration order of that function's maps", Require: []string{"compared", "several-diagnostics"}},
+			{Entry: "HarnessC02Order", Bound: "Pos.IsBefore and ByErrorPosition.Less on every pair / triple of positions with full 64-bit line and column values: strict total order, mutually consistent", Require: []string{"compared"}},
+			{Entry: "HarnessC02MapOrder", Bound: "9 workflows x every function that ranges over a map of >= 2 entries (discovered by a recording run) x every iteration order of that function's maps", Require: []string{"compared", "several-diagnostics"}},
 			{Entry: "HarnessC02WorkflowCall", Bound: "local reusable workflow with 3 required inputs and 3 required secrets, none supplied: all 36 orders", Require: []string{"compared"}},
 		}
 		p.Thorough = p.Quick
